@@ -135,6 +135,19 @@ def make_variant(v):
     # value patterns inline in the templates and ships an empty key_patterns; the demo package itself exercises the
     # key_patterns / pattern_replacing route in every other check)
     chosen[:] = [c for c in chosen if c != "inline_patterns"] or ["rename_levels"]
+    # (drawn from a generator of its own, so that the variants numbered before this transformation existed stay what they were)
+    rng2 = random.Random(derive(21, "variant-declared", v))
+    if rng2.random() < 0.3:
+        # hand-declared intermediate levels of an extrapolated chain ("if a template already exists the generated type is
+        # skipped"): same names and templates as extrapolation would generate, written out in the configuration
+        chosen.append("declare_intermediate")
+        d["declared_levels"] = {}
+        for b in d["basetypes"]:
+            if rng2.random() < 0.7:
+                n = len(b["levels"])
+                idx = sorted(rng2.sample(range(n), rng2.randint(1, min(2, n))))
+                d["declared_levels"][b["name"]] = {"levels": idx, "where": rng2.choice(["first", "last"]),
+                                                  "version": rng2.random() < 0.3}
     d["transformations"] = chosen
     if "leaf_per_base" in chosen:
         # "a leaf key per basetype": the last basetype names its leaf key differently from the others
@@ -201,6 +214,16 @@ def emit(d, dst):
         sid_templates.append(("%s__%s" % (b["name"], K["state"]), "/".join(body)))
         to_extrapolate.append("%s__%s" % (b["name"], K["state"]))
         sid_templates.append((b["name"], "/".join(head)))
+        dl = (d.get("declared_levels") or {}).get(b["name"])
+        if dl:
+            extra = [("%s__%s" % (b["name"], b["levels"][i][0]), "/".join(head + lv[: i + 1])) for i in dl["levels"]]
+            if dl.get("version"):
+                extra.append(("%s__%s" % (b["name"], K["version"]), "/".join(head + lv + [ph(K["version"], vpat)])))
+            if dl["where"] == "first":
+                at = next(k for k, (n, _) in enumerate(sid_templates) if n.startswith(b["name"] + "__"))
+                sid_templates[at:at] = extra
+            else:
+                sid_templates += extra
         keys = [K["project"], K["type"]] + [x[0] for x in b["levels"]] + [K["version"], K["state"]]
         if b["nodes"]:
             keys.append(K["node"])
